@@ -695,6 +695,44 @@ fn run_free(work: &Path, f: &Free, src: &Sources, hook: bool, patience: u64) -> 
     )
 }
 
+/// The REAL default lock timeout (no `TS_VERIF_LOCK_TIMEOUT_MS`, no schedule): a stale lock left by a
+/// dead loader, the library absent, one later loader.  It has to come back with a working language
+/// within `bound_ms` (the protocol's 30 s + poll slack + compile time).  Not a timing-sensitive verdict:
+/// a loader that is not back in time is retried once with twice the bound (guards against a stalled
+/// machine); if it is still not back the case FAILS — there is no "inconclusive" here, the bound is far
+/// above the protocol's constant.  Every other case overrides the timeout through the hook, so this is
+/// the only place where the default value itself is exercised.
+fn run_default(root: &Path, idx: usize, src: &Sources) -> String {
+    const BOUND_MS: u64 = 45_000;
+    let st = Setup { lib: "none".into(), lock: true, temp: false, broken: false, scanner: false, stalekind: "p".into(), gap: GAPS[0] };
+    let mut attempts = 0;
+    let mut result = String::from("hang");
+    let mut elapsed = 0u128;
+    let mut finallib = String::from("-");
+    let mut lockleft = true;
+    for factor in [1u64, 2] {
+        attempts += 1;
+        let work = root.join(format!("case{idx}d{attempts}"));
+        setup_case(&work, &st, src);
+        let t0 = Instant::now();
+        let ch = spawn_loader(&work, "P0T0", false, None);
+        let (lines, to) = wait_output(ch, Duration::from_millis(BOUND_MS * factor));
+        elapsed = t0.elapsed().as_millis();
+        result = if to { "hang".into() } else { lines.iter().find_map(|l| l.strip_prefix("P0T0 ").map(|s| s.to_string())).unwrap_or_else(|| "dead".into()) };
+        finallib = probe_lib(&work);
+        lockleft = lock_path(&work).exists();
+        let _ = fs::remove_dir_all(&work);
+        if !to {
+            break;
+        }
+    }
+    format!(
+        "n=1 crash=0 killed=0 results={result} finallib={finallib} lockleft={} later=skip problem=- elapsed_ms={elapsed} bound_ms={} attempts={attempts}",
+        lockleft as u8,
+        BOUND_MS * attempts as u64
+    )
+}
+
 fn detect_hook(root: &Path, src: &Sources) -> bool {
     let work = root.join("hookprobe");
     let st = Setup { lib: "fresh".into(), lock: false, temp: false, broken: false, scanner: false, stalekind: "p".into(), gap: GAPS[0] };
@@ -848,8 +886,17 @@ fn main() {
     enum Job {
         S(Sched),
         F(Free),
+        D,
     }
     let mut jobs: Vec<(usize, Job)> = Vec::new();
+    // first in the queue: it runs for ~31 s next to all the other cases
+    let want_default = match &spec_file {
+        Some(f) => fs::read_to_string(f).unwrap().lines().any(|l| l.split_whitespace().any(|w| w == "default")),
+        None => std::env::var("C19_NO_DEFAULT_CASE").is_err(),
+    };
+    if want_default {
+        jobs.push((0, Job::D));
+    }
     if hook {
         for s in scheds {
             jobs.push((jobs.len(), Job::S(s)));
@@ -902,6 +949,10 @@ fn main() {
                         }
                     }
                     format!("spec {} {}\ncase {} kind=ctl {} {}", s.id, s.raw, s.id, s.raw.splitn(3, ' ').nth(2).unwrap_or(""), r)
+                }
+                Job::D => {
+                    let r = run_default(&root, idx, &src);
+                    format!("spec d{idx} default lib=none lock=1 timeout=default\ncase d{idx} kind=default lib=none lock=1 temp=0 broken=0 scanner=0 {r}")
                 }
                 Job::F(f) => {
                     let mut r = run_free(&work, &f, &src, hook, 1);
